@@ -101,19 +101,8 @@ def run(ctx):
     ok = any("IDNAError" in " ".join(astq.handler_type_names(h)) and astq.all_paths_end_in(h.body, lambda s: isinstance(s, ast.Raise) and "LocationParseError" in astq.text(s.exc)) for h in hs)
     ctx.ob(R1, ie.qual, "IDNA failures become LocationParseError", ok)
 
-    # locals by role: the keyword arguments of the final Url(...) construction name them
-    urlc_ = [c for c in astq.calls(pu.node) if astq.call_text(c) == "Url" and c.keywords]
-    if not urlc_:
-        raise AnalysisError("parse_url: final Url(scheme=..., ...) construction not found")
-    role = {k.arg: astq.text(k.value) for k in urlc_[0].keywords}
-    for need_ in ("scheme", "auth", "host", "port", "path", "query", "fragment"):
-        if need_ not in role:
-            raise AnalysisError(f"parse_url: Url(...) has no {need_}= keyword")
-    groups_asg = [n for n in astq.walk_fn(pu.node) if isinstance(n, ast.Assign) and isinstance(n.targets[0], ast.Tuple) and "_URI_RE" in astq.text(n.value)]
-    authority_name = astq.text(groups_asg[0].targets[0].elts[1]) if groups_asg and len(groups_asg[0].targets[0].elts) == 5 else None
-
-    # ------------------------------------------------------------------ R2 authority delimiters
-    R2 = ctx.rule("C14-R2", "the authority ends at the first '/', '?', '#' or backslash: the authority group of _URI_RE is a class excluding exactly those; the pattern is anchored at both ends and DOTALL (a newline cannot truncate it)", "E7")
+    # ------------------------------------------------------------------ R2 authority delimiters (regex structure) + roles on rows
+    R2 = ctx.rule("C14-R2", "the authority ends at the first '/', '?', '#' or backslash: the authority group of _URI_RE is a class excluding exactly those; the pattern is anchored at both ends and DOTALL (a newline cannot truncate it); the five groups feed scheme, authority, path, query, fragment", "E7 + E10 effect rows")
     ur = fold.need(URL, "_URI_RE")
     p = rx.parse(ur.pattern, ur.flags)
     gp = rx.groups(p)
@@ -131,79 +120,13 @@ def run(ctx):
            "" if set(excluded) == {"#", "/", "?", "\\"} else "urllib3 would read a different host than a conforming parser (e.g. `http://good\\\\@evil/`)")
     import re as _re
     ctx.ob(R2, URL, "_URI_RE is anchored (^...$) and DOTALL", rx.start_anchor(p) is not None and rx.end_anchor(p) is not None and bool(ur.flags & _re.DOTALL), f"flags {ur.flags}")
-    uses = [c for c in astq.calls(pu.node) if isinstance(c.func, ast.Attribute) and astq.text(c.func.value) == "_URI_RE"]
-    ctx.ob(R2, pu.qual, "_URI_RE is applied with match() to the whole input", bool(uses) and uses[0].func.attr in ("match", "fullmatch") and astq.text(uses[0].args[0]) == "url")
-    # the five groups are unpacked in order scheme, authority, path, query, fragment
-    asg = [n for n in astq.walk_fn(pu.node) if isinstance(n, ast.Assign) and isinstance(n.targets[0], ast.Tuple) and "_URI_RE" in astq.text(n.value)]
-    ok = bool(asg) and len(asg[0].targets[0].elts) == 5 and [astq.text(e) for i, e in enumerate(asg[0].targets[0].elts) if i != 1] == [role["scheme"], role["path"], role["query"], role["fragment"]]
-    ctx.ob(R2, pu.qual, "groups unpacked as scheme, authority, path, query, fragment", ok)
+    ctx.ob(R2, URL, "_URI_RE has the five RFC 3986 groups", len(gp) == 5, f"{len(gp)} groups")
+    R3 = ctx.rule("C14-R3", "userinfo ends at the last '@' of the authority; host and port are what _HOST_PORT_RE finds after it", "E10 effect rows")
+    R4 = ctx.rule("C14-R4", "scheme and host are lower-cased on every return path (IPv4 literals have no case)", "E10 effect rows")
+    R5 = ctx.rule("C14-R5", "a port reaches the result only after 0 <= port <= 65535 was decided on the path; the port group admits at most five significant digits (so int() is bounded)", "E10 effect rows (interval from the decisions) + E7")
+    from . import c14_rows
 
-    # ------------------------------------------------------------------ R3 host after the last '@'
-    R3 = ctx.rule("C14-R3", "userinfo ends at the last '@' of the authority: rpartition('@')", "E6")
-    parts = [n for n in astq.walk_fn(pu.node) if isinstance(n, ast.Assign) and isinstance(n.value, ast.Call) and isinstance(n.value.func, ast.Attribute)
-             and n.value.func.attr in ("rpartition", "partition", "split", "rsplit") and astq.text(n.value.func.value) == authority_name]
-    ctx.sites(R3, len(parts), 1, "authority split")
-    for n in parts:
-        c = n.value
-        ok = c.func.attr == "rpartition" and c.args and isinstance(c.args[0], ast.Constant) and c.args[0].value == "@"
-        ok = ok or (c.func.attr == "rsplit" and len(c.args) == 2 and astq.text(c.args[1]) == "1")
-        ctx.ob(R3, pu.qual, f"`{astq.text(n)}`", ok, "" if ok else "`http://a@evil@good/` style inputs put the host before the last '@'", node=n)
-        tg = [astq.text(e) for e in n.targets[0].elts] if isinstance(n.targets[0], ast.Tuple) else []
-        hp_name = tg[-1] if tg else None
-        ctx.ob(R3, pu.qual, "host:port is the part after the separator, userinfo the part before", bool(tg) and len(tg) == 3 and tg[0] == role["auth"])
-    hp = [c for c in astq.calls(pu.node) if isinstance(c.func, ast.Attribute) and astq.text(c.func.value) == "_HOST_PORT_RE"]
-    ok = bool(hp) and bool(parts) and astq.text(hp[0].args[0]) == hp_name and hp[0].func.attr in ("match", "fullmatch")
-    hp_asg = [n for n in astq.walk_fn(pu.node) if isinstance(n, ast.Assign) and isinstance(n.targets[0], ast.Tuple) and "_HOST_PORT_RE" in astq.text(n.value)]
-    port_str = astq.text(hp_asg[0].targets[0].elts[1]) if hp_asg and len(hp_asg[0].targets[0].elts) == 2 else None
-    ok = ok and bool(hp_asg) and astq.text(hp_asg[0].targets[0].elts[0]) == role["host"]
-    ctx.ob(R3, pu.qual, "host and port are taken from host_port with _HOST_PORT_RE", ok)
-
-    # ------------------------------------------------------------------ R4 lower-casing
-    R4 = ctx.rule("C14-R4", "scheme and host are lower-cased on every return path (IPv4 literals have no case)", "E6 must-pass-through")
-    nh = m.func(f"{URL}._normalize_host")
-    rets = [r for r in astq.walk_fn(nh.node) if isinstance(r, ast.Return) and r.value is not None]
-    nn = 0
-    for r in rets:
-        inside = astq.enclosing(r, ast.If)
-        txt = astq.text(r.value)
-        # returns inside the normalisable-scheme branch
-        in_norm = any(isinstance(a, ast.If) and "scheme in _NORMALIZABLE_SCHEMES" in astq.text(a.test) for a in astq.ancestors(r))
-        if not in_norm:
-            continue
-        nn += 1
-        ok = ".lower()" in txt or "_idna_encode(" in txt
-        ctx.ob(R4, nh.qual, f"`return {txt[:60]}` is lower-cased", ok, "" if ok else "a host reaches the result (pool key, Host header) with its original case", node=r)
-    ctx.sites(R4, nn, 3, "returns of _normalize_host for http/https")
-    ie_txt = astq.text(ie.node)
-    ctx.ob(R4, ie.qual, "_idna_encode lower-cases both the ASCII and the IDNA path", "name.lower().encode('ascii')" in ie_txt.replace('"', "'") and "idna.encode(name.lower()" in ie_txt)
-    # the IPv4 exemption really is a digits-and-dots pattern
-    v4 = fold.need(URL, "_IPV4_RE")
-    chars = rx.any_chars(rx.parse(v4.pattern, v4.flags))
-    ctx.ob(R4, URL, "the un-lowered branch is guarded by a digits-and-dots pattern", chars <= set("0123456789."), str(sorted(chars)))
-    scn = role["scheme"]
-    ok = f"if {scn}:\n            {scn} = {scn}.lower()" in astq.text(pu.node)
-    ctx.ob(R4, pu.qual, "parse_url lower-cases the scheme", ok)
-    ok = "if scheme is not None:\n        scheme = scheme.lower()" in astq.text(un.node)
-    ctx.ob(R4, un.qual, "Url() lower-cases the scheme", ok)
-    call = [c for c in astq.calls(pu.node) if astq.call_text(c) == "_normalize_host"]
-    ok = bool(call) and [astq.text(a) for a in call[0].args] == [role["host"], role["scheme"]] and astq.in_body_of(call[0], t, "body")
-    st_h = astq.stmt_of(call[0]) if call else None
-    ok = ok and isinstance(st_h, ast.Assign) and astq.text(st_h.targets[0]) == role["host"]
-    ctx.ob(R4, pu.qual, "host passes _normalize_host(host, scheme) inside the funnel", ok)
-
-    # ------------------------------------------------------------------ R5 port range
-    R5 = ctx.rule("C14-R5", "a port reaches the result only after 0 <= port <= 65535 was tested; the port group admits at most five significant digits (so int() is bounded)", "E3 + E7")
-    g = [n for n in astq.walk_fn(pu.node) if isinstance(n, ast.If) and "65535" in astq.text(n.test)]
-    ctx.ob(R5, pu.qual, "a 0..65535 range test guards the port", bool(g), "" if g else "any integer is accepted as a port (pool key / connect address out of range)", node=pu.node)
-    for n in g:
-        ok = astq.text(n.test) == f"not 0 <= {role['port']} <= 65535" and astq.all_paths_end_in(n.body, lambda s: isinstance(s, ast.Raise) and "LocationParseError" in astq.text(s.exc))
-        ctx.ob(R5, pu.qual, "`if not 0 <= port <= 65535: raise LocationParseError` on the value that reaches the result", ok, astq.text(n.test), node=n)
-    srcs = astq.assigned_values(pu.node, role["port"])
-    ok = all((isinstance(s, ast.Call) and astq.text(s) == f"int({port_str})") or (isinstance(s, ast.Constant) and s.value is None) for s in srcs) and srcs and port_str is not None
-    ctx.ob(R5, pu.qual, "the result's port is int(<port digits of _HOST_PORT_RE>) or None", bool(ok))
-    urlc = [c for c in astq.calls(pu.node) if astq.call_text(c) == "Url" and c.keywords]
-    ok = bool(urlc) and bool(g)
-    ctx.ob(R5, pu.qual, "the result's port is the range-checked value", ok)
+    c14_rows.run(ctx, R2, R3, R4, R5)
     hpr = fold.need(URL, "_HOST_PORT_RE")
     hpp = rx.parse(hpr.pattern, hpr.flags)
     gp2 = rx.groups(hpp)
